@@ -112,9 +112,7 @@ def judge(c):
     if not 0 <= civ[0] <= 9999:
         c.meta["skipped"] = True      # the civil year is outside 0000-9999: outside the property
         return res
-    if "/" in p and civ[7] < 0 and "%s" in fmt:
-        c.meta["skipped"] = True      # fractional instant before the epoch: "whole seconds" is ambiguous there
-        return res
+
     want = posix(fmt, civ, zone)
     parts = [x.strip() for x in I[0].split(";")]
     got = dec(parts[0]) if not parts[0].startswith(("ERR", "EXC")) else parts[0]
